@@ -40,6 +40,9 @@ func c17Gen(tp *simcore.Tape, n int, base time.Time, distinctRTD bool) []c17Samp
 		jitter2 = []int64{0, 1000, 1000000, 200000000}[tp.Intn(4, "jitter2")]
 	}
 	minDelay := tp.Range(0, 50_000_000, "mindelay")
+	// a server whose clock runs fast while it holds the request (or whose timestamps are
+	// coarse) reports a dwell longer than the real one: round-trip delays around and below zero
+	overstated := tp.Bool(1, 4, "dwell-overstated")
 	seen := map[time.Duration]bool{}
 	var out []c17Sample
 	t := base
@@ -54,6 +57,9 @@ func c17Gen(tp *simcore.Tape, n int, base time.Time, distinctRTD bool) []c17Samp
 			s.t1 = s.t0.Add(d1 + theta + drift)
 			s.t2 = s.t1.Add(proc)
 			s.t3 = s.t2.Add(d2 - theta - drift)
+			if overstated {
+				s.t2 = s.t2.Add(time.Duration(tp.Range(0, 2*int64(d1+d2)+2000, "dwell-bias")))
+			}
 			if distinctRTD && seen[s.rtd()] && try < 50 {
 				minDelay++
 				continue
@@ -172,6 +178,9 @@ func c17World(t *testing.T, r *simcore.Run) any {
 			}
 			got := f.Do(s.t0, s.t1, s.t2, s.t3)
 			r.Log("lucky %d -> %d", i, got)
+			if s.rtd() <= 0 {
+				r.Probe("round-trip-delay-not-positive")
+			}
 			want := c17LuckyModel(window, k)
 			if got != want {
 				r.Fail("C17", "lucky/selection", "sample %d (window %d, cap %d, pick %d): filter %v, median of the %d lowest-delay samples %v",
